@@ -176,6 +176,55 @@ func (r *run) newNode() *node {
 	return n
 }
 
+// opReopen serialises the node's message (Marshal, MarshalPacked or the stream Encoder), reads the
+// bytes back and continues building on the message that was read: a decoded message is an ordinary
+// message, and allocating in it must not disturb what it already holds.
+func (r *run) opReopen(n *node) {
+	s := r.s
+	var m2 *capnp.Message
+	var err error
+	how := ""
+	switch s.Choice("reopen-how", 3) {
+	case 0:
+		how = "Marshal/Unmarshal"
+		var data []byte
+		if data, err = n.msg.Marshal(); err == nil {
+			m2, err = capnp.Unmarshal(data)
+		}
+	case 1:
+		how = "MarshalPacked/UnmarshalPacked"
+		var data []byte
+		if data, err = n.msg.MarshalPacked(); err == nil {
+			m2, err = capnp.UnmarshalPacked(data)
+		}
+	default:
+		how = "Encoder/Decoder"
+		var buf bytes.Buffer
+		if err = capnp.NewEncoder(&buf).Encode(n.msg); err == nil {
+			m2, err = capnp.NewDecoder(&buf).Decode()
+		}
+	}
+	if err != nil {
+		if n.injected(err) {
+			n.tainted = true
+			return
+		}
+		r.fail("roundtrip_mismatch", "message.go:(*Message).Marshal", fmt.Sprintf("node %d (%s): %s failed: %v", n.id, n.arenaStr, how, err))
+		return
+	}
+	seg, err := m2.Segment(0)
+	if err != nil {
+		r.fail("roundtrip_mismatch", "message.go:Unmarshal", fmt.Sprintf("node %d: %s: first segment of the decoded message: %v", n.id, how, err))
+		return
+	}
+	m2.CapTable, n.msg.CapTable = n.msg.CapTable, nil // the references move with the tree
+	n.msg, n.seg, n.arena = m2, seg, nil
+	n.arenaStr += " -> reopened via " + how
+	s.Probe("node_reopened_from_bytes")
+	r.ops++
+	r.checkReadback(n, "after reopening the message via "+how)
+}
+
 // injected reports whether err can be blamed on this node's injected allocation failure.
 func (n *node) injected(err error) bool {
 	return err != nil && n.arena != nil && n.arena.Failed && strings.Contains(err.Error(), "injected allocation failure")
@@ -321,7 +370,20 @@ func (r *run) newValue(n *node, seg *capnp.Segment, depth int, allowCap bool) (c
 		}
 		return st.ToPtr(), m, nil
 	case k == 1: // text / data
-		b := r.randBytes(s.Choice("textlen", 20))
+		// textlen 20..23: blobs longer than the packed encoding's run limits (255 words of zeros / of
+		// incompressible data), all zero or without any zero byte
+		var b []byte
+		if tl := s.Choice("textlen", 24); tl < 20 {
+			b = r.randBytes(tl)
+		} else {
+			b = make([]byte, []int{2056, 2104, 4112, 2049}[tl-20])
+			if tl >= 22 {
+				for i := range b {
+					b[i] = byte(1 + i%251)
+				}
+			}
+			s.Probe("blob_longer_than_packed_run_limit")
+		}
 		if s.Choice("text-or-data", 2) == 0 {
 			l, err := capnp.NewData(seg, b)
 			if err != nil {
@@ -409,8 +471,16 @@ func (r *run) newValue(n *node, seg *capnp.Segment, depth int, allowCap bool) (c
 		}
 	case k == 3 || k == 4: // composite list
 		cnt := s.Choice("comp-len", 5)
-		dw, pw := s.Choice("comp-dw", 3), s.Choice("comp-pw", 3)
-		l, err := capnp.NewCompositeList(seg, capnp.ObjectSize{DataSize: capnp.Size(8 * dw), PointerCount: uint16(pw)}, int32(cnt))
+		// comp-dw 3..5: the same 1..3 data words requested as a size that is not a whole number of
+		// words (4, 12, 20 bytes), which the builder has to round up everywhere consistently
+		dw, pw := s.Choice("comp-dw", 6), s.Choice("comp-pw", 3)
+		dsz := capnp.Size(8 * dw)
+		if dw >= 3 {
+			dw -= 2
+			dsz = capnp.Size(8*dw - 4)
+			s.Probe("composite_list_with_unaligned_data_size")
+		}
+		l, err := capnp.NewCompositeList(seg, capnp.ObjectSize{DataSize: dsz, PointerCount: uint16(pw)}, int32(cnt))
 		if err != nil {
 			return capnp.Ptr{}, nil, err
 		}
@@ -1424,7 +1494,10 @@ func (Engine) Run(t *testing.T, tape *simrt.Tape, opt worker.Options) *worker.Ou
 			if n.tainted {
 				continue
 			}
-			if s.Choice("op-class", 6) < copyShare {
+			// (op-class 6: the node's message is serialised, read back and built upon further)
+			if oc := s.Choice("op-class", 7); oc == 6 {
+				r.opReopen(n)
+			} else if oc < copyShare {
 				r.opCopy(n)
 			} else {
 				r.opBuild(n)
